@@ -59,22 +59,21 @@ def runSteps (s : St) (steps : List Step) : St := steps.foldl step s
 
 /-! ### which reads can be live: the snapshot-site table extracted from the source -/
 
-/-- functions that create a request object together with its snapshot (exactly one `GetServerConf()` each) -/
+/-- functions that create a request object together with its snapshot: exactly ONE place that obtains the current
+    configuration is reachable from each of them -/
 def requestEntry : List String := ["conn.readRequest", "ProtocolHandler.ServeHTTP", "BfeServer.Balance"]
 
-/-- the other places that may look at the current configuration: start-up, the reload functions, the accessor
-    itself, health-check conf, connection set-up (vip → product), TLS-proxy product lookup, monitor pages -/
-def otherAllowed : List String :=
-  ["BfeServer.InitDataLoad", "BfeServer.serverDataConfReload", "BfeServer.gslbDataConfReload",
-   "BfeServer.GetServerConf", "BfeServer.GetCheckConf", "BfeServer.FindProduct", "newConn",
-   "BfeServer.HostTableStatusGet", "BfeServer.HostTableVersionGet", "BfeServer.ClusterTableVersionGet"]
+/-- functions that must be in the table (the request path proper) -/
+def requestPathCore : List String :=
+  ["ReverseProxy.ServeHTTP", "BfeServer.findProduct", "BfeServer.findCluster", "conn.readRequest"]
 
-/-- the request path is clean: every site that obtains the current configuration is in the white list (so none is
-    in ReverseProxy.ServeHTTP, findProduct, findCluster, FindLocation, clusterInvoke, conn.serve, …) and every
-    request-entry function takes exactly ONE snapshot -/
-def pathClean (sites : List (String × String)) : Bool :=
-  sites.all (fun s => (requestEntry ++ otherAllowed).contains s.1) &&
-  requestEntry.all (fun f => (sites.filter (fun s => s.1 == f)).length == 1)
+/-- the request path is clean: from every request-path function (ReverseProxy.ServeHTTP, clusterInvoke, FinishReq,
+    findProduct, findCluster, FindLocation, conn.serveRequest) NO place that obtains the current configuration is
+    reachable through same-package calls, and from every request-entry function exactly ONE (the snapshot).
+    `sites` = (function, number of reachable `GetServerConf()` calls / `.ServerConf` accesses), extracted from the source. -/
+def pathClean (sites : List (String × Nat)) : Bool :=
+  sites.all (fun s => if requestEntry.contains s.1 then s.2 == 1 else s.2 == 0) &&
+  requestPathCore.all (fun f => sites.any fun s => s.1 == f)
 
 /-- a step sequence the code can perform: live reads exist only if the request path is not clean -/
 def Conforms (clean : Bool) (steps : List Step) : Prop :=
